@@ -6,6 +6,7 @@ Line-protocol driver for the C04 model (Model/Rollup.lean).
   flush <h> <file> <nonEmpty> | <metric>/<start>/<end>/<series>.<field>.<ftype>.<slot>.<val>,... ...
   rollup <h> ivs=<a,b|-> dvs=<a,b|-> avail=<a,b|-> cut=<n|->
   reopen | state
+  rollupf <h> ivs=.. dvs=.. avail=.. fail=<k>   (complete run whose k-th manifest commit fails; the code goes on)
   rollupq <h> ivs=.. dvs=.. avail=..   (one family's job of a concurrent ForceRollup)
   read <tgt>
   arith <src> <tgt> <srcSegTime> <fTime> | <slot> <slot> ...
@@ -234,6 +235,32 @@ def step (d : DS) (ws : List String) : DS × String :=
         let rs := if recs.isEmpty then "-" else ";".intercalate (recs.map showRec)
         ({ d with st := σ, tfiles := d.tfiles ++ o }, s!"recs={rs}")
     | _, _, _, _ => (d, "bad-op")
+  | ["rollupf", h, ivs, dvs, avail, fail] =>
+    -- a complete rollup run in which the manifest commit of record number `fail` FAILS (I/O error): the
+    -- code goes on (the result of that commitEditLog is not looked at), so the run's other records are
+    -- committed as if nothing had happened (`St.applyDropping`)
+    match h.toNat?, (kv? ivs "ivs").bind parseNatList, (kv? dvs "dvs").bind parseNatList,
+      (kv? avail "avail").bind parseNatList, (kv? fail "fail").bind String.toNat? with
+    | some h, some ivs, some dvs, some av, some k =>
+      let all := rollupRecs d.st h ivs (fun i => decide (i ∈ av)) dvs
+      let recs := rollupRecsFailing (Generated.C04.installCommitResult == "checked")
+        (Generated.C04.rollupSourceCommitResult == "checked") d.st h ivs (fun i => decide (i ∈ av)) dvs k
+      let outs : Option (List ((Iv × String) × FileData)) := recs.foldl (fun acc r =>
+        match acc, r with
+        | some l, .merge i inputs =>
+          let fds := inputs.filterMap (fun k => (d.files.find? (·.1 = k)).map (·.2))
+          match mergeFiles Generated.C04.placementByTimestamp (d.rOf h i) fds with
+          | some o => some (l ++ [((i, d.locKey h i), o)])
+          | none => none
+        | acc, _ => acc) (some [])
+      match outs with
+      | none => ({ d with dead := true }, "panic-div0")
+      | some o =>
+        let σ := d.st.applyAll recs
+        let rs := if recs.isEmpty then "-" else ";".intercalate (recs.map showRec)
+        let failed := match all[k]? with | some r => showRec r | none => "-"
+        ({ d with st := σ, tfiles := d.tfiles ++ o }, s!"recs={rs} failed={failed} {showState σ}")
+    | _, _, _, _, _ => (d, "bad-op")
   | ["state"] => (d, showState d.st)
   | ["compact", ks] =>
     -- (outside C04's operations) a compaction of the source family: the files leave level 0
